@@ -80,13 +80,14 @@ type workerRun struct {
 	outs    []string
 	samples []string
 	fatal   string
+	descs   []string
 	hang    map[string]interface{}
 	done    bool
 }
 
 func runWorkerOnce(env *Env, args []string) (*workerRun, int, error) {
 	cmd := exec.Command(env.Self, args...)
-	cmd.Env = append(os.Environ(), "GOMAXPROCS=2", "GOTRACEBACK=single")
+	cmd.Env = append(os.Environ(), "GOMAXPROCS=1", "GOGC=1000", "GOTRACEBACK=single")
 	stdout, err := cmd.StdoutPipe()
 	if err != nil {
 		return nil, 0, err
@@ -132,6 +133,10 @@ func runWorkerOnce(env *Env, args []string) (*workerRun, int, error) {
 					json.Unmarshal(m["outcomes"], &wr.outs)
 					json.Unmarshal(m["samples"], &wr.samples)
 					json.Unmarshal(m["perkey"], &wr.perKey)
+				case "desc":
+					var s string
+					json.Unmarshal(m["msg"], &s)
+					wr.descs = append(wr.descs, s)
 				case "log":
 					var s string
 					json.Unmarshal(m["msg"], &s)
@@ -330,6 +335,13 @@ func joinInts(a []int) string {
 // Replay re-runs one recorded case in a fresh worker and returns the
 // violations it reports (and whether it hung or crashed).
 func Replay(env *Env, v *Violation) (keys map[string]*Violation, status string) {
+	keys, status, _ = ReplayDesc(env, v)
+	return
+}
+
+// ReplayDesc is Replay that also returns the last case description announced
+// by the worker before it finished, hung or died.
+func ReplayDesc(env *Env, v *Violation) (keys map[string]*Violation, status string, desc string) {
 	work := filepath.Join(env.Root, ".work")
 	os.MkdirAll(work, 0o755)
 	region := filepath.Join(work, fmt.Sprintf("%s-replay-%d.cur", env.PropID, os.Getpid()))
@@ -343,21 +355,24 @@ func Replay(env *Env, v *Violation) (keys map[string]*Violation, status string) 
 		for _, x := range wr.viols {
 			keys[x.Key] = x
 		}
+		if n := len(wr.descs); n > 0 {
+			desc = wr.descs[n-1]
+		}
 		if wr.fatal != "" {
-			return keys, "fatal: " + wr.fatal
+			return keys, "fatal: " + wr.fatal, desc
 		}
 	}
 	switch {
 	case code == 3:
-		return keys, "hang"
+		return keys, "hang", desc
 	case code != 0:
 		s := ""
 		if err != nil {
 			s = err.Error()
 		}
-		return keys, "crash: " + firstLines(s, 6)
+		return keys, "crash: " + firstLines(s, 6), desc
 	}
-	return keys, "ok"
+	return keys, "ok", desc
 }
 
 func firstLines(s string, n int) string {
@@ -397,7 +412,10 @@ func Finish(env *Env, p *Prop, res *Result, start time.Time) int {
 			ok := true
 			var last *Violation
 			for rep := 0; rep < 2; rep++ {
-				keys, status := Replay(env, v)
+				keys, status, desc := ReplayDesc(env, v)
+				if desc != "" && (v.Kind == "hang" || v.Kind == "crash") {
+					v.Detail.Program = desc
+				}
 				switch v.Kind {
 				case "hang":
 					if status != "hang" {
